@@ -264,6 +264,8 @@ def _code(sym, index):
                 try:
                     parts.append("(bool({}) is {})".format(_code(c, index), bool(truth)))
                 except Undecided:
+                    if STRICT[0]:
+                        raise
                     continue
             alts.append("(" + (" and ".join(parts) if parts else "True") + ")")
         return "(" + " or ".join(alts) + ")"
@@ -271,6 +273,9 @@ def _code(sym, index):
 
 
 _COMPILED = {}
+# strict: a condition inside a merged ('anyof') path condition that cannot be compiled makes the
+# whole term undecided instead of being dropped (set by callers that compare with a specification)
+STRICT = [False]
 
 
 def compile_path(conds, terms, leaves_order):
